@@ -624,6 +624,16 @@ dns {
 routing { fallback: direct }
 `
 
+// c09DnsConfigRR: the same request routing, plus response routing that re-asks another upstream / rejects by the
+// address in the answer (the answer token sits in the last two bytes of the A / AAAA record; the Lean driver's
+// `routeOf` is the same table): 768.. -> reject, 512..767 -> ut (tcp), 384..511 -> ub (tcp+udp), else accept.
+var c09DnsConfigRR = strings.Replace(c09DnsConfig, `      fallback: accept
+    }`, `      ip(10.9.3.0/24, '2001:db8::300/120') -> reject
+      ip(10.9.2.0/24, '2001:db8::200/120') -> ut
+      ip(10.9.1.128/25, '2001:db8::180/121') -> ub
+      fallback: accept
+    }`, 1)
+
 // c09Writer is the client's dnsmessage.ResponseWriter.  Like a real one it serialises the message it is
 // handed — but not before every other writer that has been handed a message in the same step has
 // been entered too (gate): all coalesced waiters of a flight have then patched "their" message, and
@@ -688,6 +698,7 @@ func (a c09Att) tok() string {
 
 type c09Call struct {
 	dead    bool // the exchange was started with a context that had already ended
+	fbLeg   bool // the TCP leg of a tcp+udp upstream: the fallback of the same dialSend level
 	l4      consts.L4ProtoStr
 	data    []byte
 	release chan c09Att
@@ -697,8 +708,9 @@ type c09Call struct {
 // controller's forwardWithDialArg / retire / evict / reset drive it: Close() while one of its exchanges is
 // blocked, an exchange entered after Close(), more than one Close().
 type c09ScriptFwd struct {
-	w  *c09CtlWorld
-	l4 consts.L4ProtoStr
+	w      *c09CtlWorld
+	l4     consts.L4ProtoStr
+	scheme componentdns.UpstreamScheme // of the upstream the controller created this forwarder for
 
 	inFlight          atomic.Int32
 	closes            atomic.Int32
@@ -712,7 +724,8 @@ func (f *c09ScriptFwd) ForwardDNS(ctx context.Context, data []byte) (*dnsmessage
 	}
 	f.inFlight.Add(1)
 	defer f.inFlight.Add(-1)
-	call := &c09Call{l4: f.l4, data: append([]byte(nil), data...), release: make(chan c09Att, 1), dead: ctx.Err() != nil}
+	call := &c09Call{l4: f.l4, data: append([]byte(nil), data...), release: make(chan c09Att, 1), dead: ctx.Err() != nil,
+		fbLeg: f.scheme == componentdns.UpstreamScheme_TCP_UDP && f.l4 == consts.L4ProtoStr_TCP}
 	f.w.mu.Lock()
 	f.w.calls = append(f.w.calls, call)
 	ch := f.w.callCh
@@ -791,6 +804,7 @@ type c09Client struct {
 	qtype int
 	route string // a r u t b
 	cls   int    // DNS class of the question (1 IN, 3 CH, 255 ANY)
+	nq    int    // number of questions in the query (1; 0 and 2 are refused with FORMERR)
 	dst   int    // realDst index (scope of as-is answers)
 	w     *c09Writer
 	done  chan error
@@ -818,6 +832,9 @@ func (c *c09Client) tok() string {
 		rt = "r"
 	}
 	t := fmt.Sprintf("%d:%d:%d:%d:%d:%s", c.id, c09NameTok(c.n, c.route), c.sp, c.qtype, c.scope(), rt)
+	if c.nq != 1 {
+		return t + fmt.Sprintf(":%d:%d", c.cls, c.nq)
+	}
 	if c.cls != 1 {
 		t += fmt.Sprintf(":%d", c.cls)
 	}
@@ -894,8 +911,10 @@ func newC09CtlWorld(st *VStream, stat *VStats, routing *componentdns.Dns, optimi
 	return w
 }
 
-func c09Routing() *componentdns.Dns {
-	sections, err := config_parser.Parse(c09DnsConfig)
+func c09Routing() *componentdns.Dns { return c09RoutingOf(c09DnsConfig) }
+
+func c09RoutingOf(cfg string) *componentdns.Dns {
+	sections, err := config_parser.Parse(cfg)
 	if err != nil {
 		panic(err)
 	}
@@ -1034,6 +1053,12 @@ func (w *c09CtlWorld) start(c *c09Client) {
 	q := new(dnsmessage.Msg)
 	q.SetQuestion(c09Name(c.n, c.sp, c.route), uint16(c.qtype))
 	q.Question[0].Qclass = uint16(c.cls)
+	switch {
+	case c.nq == 0:
+		q.Question = nil
+	case c.nq > 1:
+		q.Question = append(q.Question, dnsmessage.Question{Name: c09Name(c.n+1, 0, c.route), Qtype: uint16(c.qtype), Qclass: uint16(c.cls)})
+	}
 	q.Id = uint16(c.id)
 	req := &udpRequest{realSrc: netip.MustParseAddrPort("192.0.2.10:41000"), realDst: netip.MustParseAddrPort(c09Dsts[c.dst]), routingResult: &bpfRoutingResult{}}
 	go func() {
@@ -1050,7 +1075,7 @@ func (w *c09CtlWorld) start(c *c09Client) {
 	}()
 }
 
-func c09GenAtt(r *VRand, c *c09Client, stat *VStats, pool []int, optimistic bool) c09Att {
+func c09GenAtt(r *VRand, c *c09Client, stat *VStats, pool []int, optimistic bool, rr bool) c09Att {
 	switch r.Intn(16) {
 	case 0:
 		stat.Inc("ctl.att.fail")
@@ -1062,6 +1087,23 @@ func c09GenAtt(r *VRand, c *c09Client, stat *VStats, pool []int, optimistic bool
 	nt := c09NameTok(c.n, c.route)
 	a := c09Att{id: c.id, q: c09QStr(nt, c.sp, c.qtype, c.cls), resp: true, ans: 1 + r.Intn(900)}
 	stat.Inc("ctl.att.msg")
+	if rr && r.Chance(0.6) {
+		// an address response routing has a rule for: re-ask ut (tcp) / re-ask ub (tcp+udp) / reject
+		switch r.Intn(20) {
+		case 0, 1, 2, 3, 4, 5, 6, 7:
+			a.ans = 512 + r.Intn(256)
+			stat.Inc("ctl.att.rr-range.next-tcp")
+		case 8, 9, 10, 11, 12:
+			a.ans = 384 + r.Intn(128)
+			stat.Inc("ctl.att.rr-range.next-tcpudp")
+		case 13, 14: // the edges of the prefixes
+			a.ans = []int{383, 384, 511, 512, 767, 768}[r.Intn(6)]
+			stat.Inc("ctl.att.rr-range.edge")
+		default:
+			a.ans = 768 + r.Intn(133)
+			stat.Inc("ctl.att.rr-range.reject")
+		}
+	}
 	if r.Chance(0.25) { // other ID (transport-level ID need not be the client's)
 		a.id = r.Intn(65536)
 		stat.Inc("ctl.att.other-id")
@@ -1111,10 +1153,76 @@ func c09GenAtt(r *VRand, c *c09Client, stat *VStats, pool []int, optimistic bool
 	return a
 }
 
-func c09RunCtlScenario(r *VRand, st *VStream, stat *VStats, routing *componentdns.Dns) {
+// exchange drives one dialSend of the real code (a flight's resolution or a background refresh) from its first
+// blocked upstream call on: every further call that appears is given the next scripted attempt - the TCP leg of
+// a tcp+udp upstream the second attempt of the same level (forwardWithFallback), any other call the first
+// attempt of the next level (response routing re-asked another upstream: dialSend called itself).  An attempt
+// entered with a context that is already over is recorded as `fail` (a transport fails such an exchange).
+// Returns the number of upstream exchanges the real code issued and the number of levels it reached.
+func (w *c09CtlWorld) exchange(r *VRand, first *c09Call, atts *[6]c09Att) (issued, levels int) {
+	level, idx := 0, 0
+	call := first
+	for {
+		if call.dead {
+			atts[idx] = c09Att{fail: true}
+		}
+		a := atts[idx]
+		nBefore := w.ncalls()
+		call.release <- a
+		issued++
+		if a.timeout {
+			time.Sleep(consts.DefaultDialTimeout + time.Second)
+		}
+		w.settle(r)
+		if w.ncalls() <= nBefore {
+			return issued, level + 1
+		}
+		w.mu.Lock()
+		next := w.calls[len(w.calls)-1]
+		w.mu.Unlock()
+		switch {
+		case next.fbLeg && idx%2 == 0:
+			idx = 2*level + 1
+			w.stat.Inc("ctl.fallback.tcp-attempt")
+		case level < 2:
+			level++
+			idx = 2 * level
+		default:
+			// a fourth level: MaxDnsLookupDepth does not hold; the exchange count shows it to the model
+			w.stat.Inc("ctl.rr.beyond-depth")
+			next.release <- c09Att{fail: true}
+			w.settle(r)
+			return issued + 1, level + 2
+		}
+		call = next
+	}
+}
+
+func c09AttToks(atts *[6]c09Att) string {
+	var l []string
+	for _, a := range atts {
+		l = append(l, a.tok())
+	}
+	return strings.Join(l, " ")
+}
+
+func c09RunCtlScenario(r *VRand, st *VStream, stat *VStats, routing, routingRR *componentdns.Dns) {
 	old := dnsForwarderFactory
 	defer func() { dnsForwarderFactory = old }()
 	optimistic := r.Chance(0.35)
+	// response routing with rules (re-ask another upstream / reject by the answer's address) in 30 % of the scenarios
+	rr := r.Chance(0.3)
+	rrTok := "0"
+	if rr {
+		routing = routingRR
+		rrTok = "1"
+		stat.Inc("ctl.scenario.response-routing")
+	}
+	// queries that do not carry exactly one question, among ordinary ones
+	malformed := r.Chance(0.04)
+	if malformed {
+		stat.Inc("ctl.scenario.malformed-queries")
+	}
 	if optimistic {
 		stat.Inc("ctl.scenario.optimistic-cache")
 	}
@@ -1123,6 +1231,9 @@ func c09RunCtlScenario(r *VRand, st *VStream, stat *VStats, routing *componentdn
 	w.ctrl.concurrencyLimiter = make(chan struct{}, 64)
 	dnsForwarderFactory = func(up *componentdns.Upstream, da dialArgument, _ *logrus.Logger) (DnsForwarder, error) {
 		f := &c09ScriptFwd{w: w, l4: da.l4proto}
+		if up != nil {
+			f.scheme = up.Scheme
+		}
 		w.mu.Lock()
 		w.fwds = append(w.fwds, f)
 		w.mu.Unlock()
@@ -1139,6 +1250,9 @@ func c09RunCtlScenario(r *VRand, st *VStream, stat *VStats, routing *componentdn
 	route := routes[r.Intn(len(routes))]
 	mixRoutes := r.Chance(0.25)
 	qtypes := c09QtypePairs[r.Intn(len(c09QtypePairs))]
+	if rr && r.Chance(0.8) {
+		qtypes = [2]int{1, 28} // the rules look at addresses
+	}
 	stat.Inc(fmt.Sprintf("ctl.scenario.qtypes.%d+%d", qtypes[0], qtypes[1]))
 	// k >= 2 identical questions (different IDs and spellings) in flight together, answered with something
 	// that is NOT kept in the cache: every waiter then takes the post-flight "shared message" branch
@@ -1169,7 +1283,7 @@ func c09RunCtlScenario(r *VRand, st *VStream, stat *VStats, routing *componentdn
 	driftNext := false
 	var toks []string
 	for i := 0; i < nc; i++ {
-		c := &c09Client{id: ids[r.Intn(2)], n: names[r.Intn(2)], sp: r.Intn(8), qtype: qtypes[[]int{0, 0, 0, 1}[r.Intn(4)]], route: route, dst: 0, cls: []int{1, 1, 1, 1, 1, 1, 1, 3, 3, 255}[r.Intn(10)],
+		c := &c09Client{id: ids[r.Intn(2)], n: names[r.Intn(2)], sp: r.Intn(8), qtype: qtypes[[]int{0, 0, 0, 1}[r.Intn(4)]], route: route, dst: 0, cls: []int{1, 1, 1, 1, 1, 1, 1, 3, 3, 255}[r.Intn(10)], nq: 1,
 			w: &c09Writer{gate: make(chan struct{})}, done: make(chan error, 1)}
 		if r.Chance(0.6) || optimistic && r.Chance(0.6) {
 			c.n = names[0] // mostly the same question
@@ -1189,6 +1303,10 @@ func c09RunCtlScenario(r *VRand, st *VStream, stat *VStats, routing *componentdn
 		}
 		if drift {
 			c.n, c.qtype, c.route, c.dst, c.cls, c.sp = names[0], qtypes[0], route, 0, 1, 1+i%7
+		}
+		if malformed && r.Chance(0.5) {
+			c.nq = []int{0, 2, 2}[r.Intn(3)]
+			stat.Inc(fmt.Sprintf("ctl.client.questions=%d", c.nq))
 		}
 		stat.Inc(fmt.Sprintf("ctl.client.class%d", c.cls))
 		w.clients = append(w.clients, c)
@@ -1283,6 +1401,23 @@ func c09RunCtlScenario(r *VRand, st *VStream, stat *VStats, routing *componentdn
 				emit(fmt.Sprintf("C arrive %d", idx), "", c, "done")
 				continue
 			}
+			if c.nq != 1 {
+				// not refused at once: the query went on to an upstream (the FORMERR guard does not cover it).  Let the
+				// upstream answer some question, and show what the client gets and what lands in the cache.
+				emit(fmt.Sprintf("C arrive %d", idx), "", c, "direct")
+				if w.ncalls() > before {
+					w.mu.Lock()
+					call := w.calls[before]
+					w.mu.Unlock()
+					call.release <- c09Att{id: c.id, q: c09QStr(c09NameTok(5, c.route), 0, 1, 1), resp: true, ans: 33}
+					w.settle(r)
+					w.poll()
+				}
+				c.rep = true
+				stat.Inc("ctl.op.malformed-not-refused")
+				emit(fmt.Sprintf("C malformed %d", idx), "", c, "done")
+				continue
+			}
 			// cache miss: the first lookup, then sf.Do (the real code runs through both)
 			emit(fmt.Sprintf("C arrive %d", idx), "", c, "missed")
 			pc := "waiting"
@@ -1310,30 +1445,15 @@ func c09RunCtlScenario(r *VRand, st *VStream, stat *VStats, routing *componentdn
 			refreshes = refreshes[1:]
 			c := w.clients[rf.client]
 			pool := []int{names[0], names[1], 9}
-			a1 := c09GenAtt(r, c, stat, pool, optimistic)
-			a2 := c09GenAtt(r, c, stat, pool, optimistic)
+			var atts [6]c09Att
+			for k := range atts {
+				atts[k] = c09GenAtt(r, c, stat, pool, optimistic, rr)
+			}
 			w.mu.Lock()
 			call := w.calls[rf.call]
 			w.mu.Unlock()
-			nBefore := w.ncalls()
-			call.release <- a1
-			if a1.timeout {
-				time.Sleep(consts.DefaultDialTimeout + time.Second)
-			}
-			w.settle(r)
-			if w.ncalls() > nBefore {
-				w.mu.Lock()
-				call2 := w.calls[len(w.calls)-1]
-				w.mu.Unlock()
-				if call2.dead {
-					a2 = c09Att{fail: true}
-				}
-				call2.release <- a2
-				if a2.timeout {
-					time.Sleep(consts.DefaultDialTimeout + time.Second)
-				}
-				w.settle(r)
-			}
+			issued, levels := w.exchange(r, call, &atts)
+			stat.Inc(fmt.Sprintf("ctl.refresh.levels=%d", levels))
 			// a refresh that did not produce a fresh entry makes the deferred clean-up drop the stale one
 			want := fmt.Sprintf("%d.%d.%d>", c09NameTok(c.n, c.route), c.qtype, c.scope())
 			ev := "1"
@@ -1343,8 +1463,8 @@ func c09RunCtlScenario(r *VRand, st *VStream, stat *VStats, routing *componentdn
 				}
 			}
 			stat.Inc("ctl.op.refresh.evicted=" + ev)
-			st.Emit(fmt.Sprintf("C refresh %d %s %s %s %s", rf.client, c.scheme(), a1.tok(), a2.tok(), ev),
-				fmt.Sprintf("pc=none out=- calls=%d cache=%s", len(flights), w.cacheStr()))
+			st.Emit(fmt.Sprintf("C refresh %d %s %s %s %s", rf.client, c.scheme(), rrTok, ev, c09AttToks(&atts)),
+				fmt.Sprintf("xch=%d pc=none out=- calls=%d cache=%s", issued, len(flights), w.cacheStr()))
 		case len(running) > 0 && r.Chance(0.15):
 			// the forwarder cache is disturbed while upstream exchanges are blocked inside forwardWithDialArg:
 			// failure-path retire, idle eviction, reload reset.  No event of the Ctl model; the fake forwarders
@@ -1410,8 +1530,11 @@ func c09RunCtlScenario(r *VRand, st *VStream, stat *VStats, routing *componentdn
 				}
 			}
 			pool := []int{names[0], names[1], 9}
-			a1 := c09GenAtt(r, f.leader, stat, pool, optimistic)
-			a2 := c09GenAtt(r, f.leader, stat, pool, optimistic)
+			var atts [6]c09Att
+			for k := range atts {
+				atts[k] = c09GenAtt(r, f.leader, stat, pool, optimistic, rr)
+			}
+			a1 := atts[0]
 			if coalesce && r.Chance(0.85) {
 				l := f.leader
 				a1 = c09Att{id: l.id, q: c09QStr(c09NameTok(l.n, l.route), r.Intn(8), l.qtype, l.cls), resp: true}
@@ -1429,38 +1552,22 @@ func c09RunCtlScenario(r *VRand, st *VStream, stat *VStats, routing *componentdn
 			}
 			if drift && fi == 0 {
 				l := f.leader
-				a1 = c09Att{id: l.id, q: c09QStr(c09NameTok(l.n, l.route), l.sp, l.qtype, l.cls), resp: true, ans: 1 + r.Intn(900)}
+				a1 = c09Att{id: l.id, q: c09QStr(c09NameTok(l.n, l.route), l.sp, l.qtype, l.cls), resp: true, ans: 1 + r.Intn(380)}
 				driftNext = true
 			}
 			if optimistic && fi == 0 && r.Chance(0.8) {
 				// a well-behaved first answer, so that there is something to go stale
 				l := f.leader
-				a1 = c09Att{id: l.id, q: c09QStr(c09NameTok(l.n, l.route), l.sp, l.qtype, l.cls), resp: true, ans: 1 + r.Intn(900)}
+				a1 = c09Att{id: l.id, q: c09QStr(c09NameTok(l.n, l.route), l.sp, l.qtype, l.cls), resp: true, ans: 1 + r.Intn(380)}
 				ageNext = true
 			}
+			atts[0] = a1
 			w.mu.Lock()
 			call := w.calls[f.first]
 			w.mu.Unlock()
-			nBefore := w.ncalls()
-			call.release <- a1
-			if a1.timeout {
-				time.Sleep(consts.DefaultDialTimeout + time.Second)
-			}
-			w.settle(r)
-			if w.ncalls() > nBefore {
-				// TCP fallback attempt of the same resolution
-				stat.Inc("ctl.fallback.tcp-attempt")
-				w.mu.Lock()
-				call2 := w.calls[len(w.calls)-1]
-				w.mu.Unlock()
-				if call2.dead {
-					a2 = c09Att{fail: true}
-				}
-				call2.release <- a2
-				if a2.timeout {
-					time.Sleep(consts.DefaultDialTimeout + time.Second)
-				}
-				w.settle(r)
+			issued, levels := w.exchange(r, call, &atts)
+			if rr {
+				stat.Inc(fmt.Sprintf("ctl.rr.resolve.levels=%d", levels))
 			}
 			f.done = true
 			w.poll()
@@ -1478,8 +1585,15 @@ func c09RunCtlScenario(r *VRand, st *VStream, stat *VStats, routing *componentdn
 			stat.Inc("ctl.resolve." + strings.SplitN(res, ":id", 2)[0])
 			// the model's resolve step leaves the leader blocked in sf.Do ("waiting"); the real leader has
 			// already gone on: its outcome is reported by the wake op that follows
-			st.Emit(fmt.Sprintf("C resolve %d %s %s %s", fi, f.leader.scheme(), a1.tok(), a2.tok()),
-				fmt.Sprintf("res=%s pc=waiting out=- calls=%d cache=%s", res, len(flights), w.cacheStr()))
+			if rr && levels > 1 && strings.HasPrefix(lo, "wrote:") {
+				stat.Inc("ctl.rr.reasked-and-answered")
+			}
+			if rr && levels == 3 && res == "err:upstream" {
+				// the third level is the last one dialSend asks (MaxDnsLookupDepth): failed there, or re-asked once more
+				stat.Inc("ctl.rr.third-level-failed-or-too-deep")
+			}
+			st.Emit(fmt.Sprintf("C resolve %d %s %s %s", fi, f.leader.scheme(), rrTok, c09AttToks(&atts)),
+				fmt.Sprintf("res=%s xch=%d pc=waiting out=- calls=%d cache=%s", res, issued, len(flights), w.cacheStr()))
 			for i, c := range w.clients[:arrived] {
 				if c.fin && !c.rep {
 					c.rep = true
@@ -1552,6 +1666,7 @@ func TestVerifC09Ctl(t *testing.T) {
 	stat := NewVStats()
 	r := NewVRand(VSeed() + 29)
 	routing := c09Routing()
+	routingRR := c09RoutingOf(c09DnsConfigRR)
 	n := 2000
 	if VThorough() {
 		n = 70000
@@ -1559,7 +1674,7 @@ func TestVerifC09Ctl(t *testing.T) {
 	for i := 0; i < n; i++ {
 		rr := r.Fork()
 		synctest.Test(t, func(t *testing.T) {
-			c09RunCtlScenario(rr, st, stat, routing)
+			c09RunCtlScenario(rr, st, stat, routing, routingRR)
 		})
 	}
 	// the error replies the callers of Handle_ build (udp.go, tcp.go, dns_listener.go, control_plane.go)
